@@ -6,6 +6,11 @@ from bardolph.lib.injection import inject
 from bardolph.vm.vm_codes import IoOp, Register
 
 class VmIo:
+    # The registers a script can name. Every other name in a format, such as
+    # "Hue", "name" or "result", is a variable.
+    _SETTINGS = ('hue', 'saturation', 'brightness', 'kelvin', 'red', 'green',
+                 'blue', 'duration', 'time', 'default')
+
     def __init__(self, call_stack, reg):
         self._call_stack = call_stack
         self._reg = reg
@@ -60,7 +65,8 @@ class VmIo:
         for field in string.Formatter().parse(format_str):
             name = field[1]
             if name is not None and len(name) > 0 and not name.isdecimal():
-                reg = Register.from_string(name)
+                reg = (Register.from_string(name)
+                       if name in VmIo._SETTINGS else None)
                 if reg is not None:
                     named[name] = self._reg.get_by_enum(reg)
                 else:
